@@ -15,6 +15,10 @@ import (
 func init() { register("C09", checkC09) }
 
 func checkC09(p *load.Program, r *kit.Report) {
+	importRules(p, r, "C11", "lookups of pruned heights read the files saveMainBranch and Branch.Save wrote, at offsets computed from the same constants", 2,
+		func(o *kit.Obligation) bool {
+			return o.Rule != "MERGE-SHAPE" || strings.HasPrefix(o.Construct, "Branch.Save")
+		}, "MAIN-FILE-SHAPE", "MERGE-SHAPE", "CONST-TABLE")
 	r.NotDecided = "behaviour after particular consolidation/prune/reload histories (which branch object a header ends up in); the assumption that every hash left only in Repository.heights is on the best chain; equality of memory- and storage-served ranges as values."
 	r.Rule("HEIGHT-LABEL", "every hash→height label stored into Branch.heightsMap / Repository.heights equals the positional height parentHeight+offset+index of the labelled header (linear arithmetic over SSA; counters by lockstep induction; constructors summarised)", 11)
 	r.Rule("PRUNE-TRIPLE", "Prune deletes heightsMap entries of headers[:count], keeps headers[count:] and adds count to offset — the same count", 1)
